@@ -162,6 +162,7 @@ def run_check(tier, seed):
         'single fault: exactly one MPI-IO data-transfer call of one rank reports a failure, every other call succeeds (the quantifier of the property)',
         'injection = the real transfer is performed, then the MPI error CLASS value is returned as the error code (MPI_Error_class maps a class value to itself); what a failed transfer leaves in the buffer is not modelled',
         'translator tools/gen_c11_iosites.py (clang-14 AST -> outcome tables by abstract interpretation of each enclosing function) is trusted to render the C faithfully; it fails closed, and every row the fault-injection programs reach is compared with the real library on every run',
+        'translator: a constant error code stored or returned under a condition that the injected failure does not decide is another, independent failure (request too large, out of memory, bad argument) and is outside the quantifier; status variables are int locals not modified through aliases (an escaping &status fails closed)',
         'MPI_Bcast from rank 0 leaves the root\'s own value unchanged / gives the other ranks the root\'s fault-free value; MPI_Allreduce(MIN) of statuses keeps a negative code (errmap_negative is proved)',
         'the dispatcher layer (src/dispatchers) returns the driver entry point\'s status unchanged: not analysed, exercised by every harness run (the observed code is the public ncmpi_* return value)',
         'the property is judged on the return value of the API call (for nonblocking requests: of ncmpi_wait/wait_all); per-request statuses are recorded in the replay files only',
@@ -220,7 +221,11 @@ def run_check(tier, seed):
             V.broken_tie('Lean driver c11drv does not build against the regenerated tables', out_drv[-1500:])
             return V.finish()
         exe = os.path.join(wd, 'c11f')
-        cc(tree, [os.path.join(VERIF, 'harness/c11_fault.c')], exe, extra=['-no-pie'])
+        try:
+            cc(tree, [os.path.join(VERIF, 'harness/c11_fault.c')], exe, extra=['-no-pie'])
+        except BuildFailed as ex_:
+            V.broken_tie('harness/c11_fault.c does not compile against this tree', str(ex_)[-1500:])
+            return V.finish()
         res = Resolver(exe)
         clsval = {k: v for v, k in table['mpi_classes']}
         io_classes = [c for c in IO_CLASSES if c in clsval]
